@@ -170,6 +170,9 @@ func (ts *TimedSched) prepend() {
 
 // Put a function 'f' awaiting to be executed at 'deadline'
 func (ts *TimedSched) Put(f func(), deadline time.Time) {
+	if verifSchedPut(ts, &f, deadline) {
+		return
+	}
 	ts.prependLock.Lock()
 	ts.prependTasks = append(ts.prependTasks, timedFunc{f, deadline})
 	ts.prependLock.Unlock()
